@@ -416,7 +416,7 @@ pub fn run_property<P: Property>(p: &P, cfg: &RunCfg) -> Outcome {
         "evaluations": total.evaluations,
         "distinct_nontrivial": total.nontrivial.len(),
         "rule": p.rule(),
-        "samples": total.samples,
+        "samples": total.samples_for_evidence(),
         "classes": total.classes,
         "engines": per_engine,
         "exhaustive_subspaces": p.exhaustive_subspaces(cfg.tier),
